@@ -80,7 +80,7 @@ def singles(spec):
 class Sim:
     """one simulation of `spec` through the real simulator + array views of the result"""
 
-    def __init__(self, spec, m, inputs, dev, n_periods, start=START, base_db=None):
+    def __init__(self, spec, m, inputs, dev, n_periods, start=START, base_db=None, split=False):
         self.spec, self.dev = spec, dev
         self.span = start >> (start + n_periods - 1)
         self.L = spec.max_lag()
@@ -98,7 +98,7 @@ class Sim:
                 db[spec.var(i)][p] = old * np.exp(amp) if spec.log else old + amp
         self.db_in = db
         with contextlib.redirect_stdout(io.StringIO()):
-            self.out = m.simulate(db, self.span, method="first_order", deviation=dev)
+            self.out = m.simulate(db, self.span, method="first_order", deviation=dev, **({"force_split_frames": True} if split else {}))
         self.arr = {}
         self.arr_in = {}
         fu = (start - self.L, start + n_periods - 1)
@@ -321,6 +321,18 @@ def check_model(spec, res, ctx, only=None):
                 full = guard("restart", background + (shock,), dev, lambda: run(background + (shock,), dev))
                 if full is None:
                     continue
+                # the same run with one frame per information set (force_split_frames: the framing the simulator
+                # itself switches to under some plans) is the same simulation
+                full_s = guard("split_frames", background + (shock,), dev, lambda: run(background + (shock,), dev, split=True))
+                if full_s is not None:
+                    res.nt((name, "split_frames", i, d, dev))
+                    res.count("split_frame_runs")
+                    for n_ in full.names():
+                        if n_[0] in "vo" and not np.allclose(full_s.arr[n_], full.arr[n_], rtol=1e-8, atol=1e-9, equal_nan=True):
+                            bad("split_frames", "unanticipated %s at period %d + %r dev=%s: %s differs between split-frame and single-frame simulation by %.3e"
+                                % (spec.shk(i), d, background, dev, n_, np.nanmax(np.abs(full_s.arr[n_] - full.arr[n_]))),
+                                input=[list(x) for x in background + (shock,)], mode=dev, input_kind="split_frames")
+                            break
                 db2 = p1.out.copy()
                 db2[spec.shk(i)][START + d - 1] = amp * 0.8
 
@@ -340,6 +352,23 @@ def check_model(spec, res, ctx, only=None):
                         bad("restart", "unanticipated %s at period %d dev=%s: %s differs from simulate-then-restart by %.3e"
                             % (spec.shk(i), d, dev, n_, np.nanmax(np.abs(got - exp))), input=[list(shock)], mode=dev, input_kind="restart")
                         break
+
+    # (c2) split frames on a composite: every basis input at once plus unanticipated shocks at dates 2 and 3
+    for dev in (True, False):
+        comp2 = tuple(S) + tuple(("u", i, d, amp * (0.4 + 0.1 * d + 0.05 * i)) for i in range(spec.n) for d in (2, 3))
+        one = guard("split_frames", comp2, dev, lambda: run(comp2, dev))
+        many = guard("split_frames", comp2, dev, lambda: run(comp2, dev, split=True))
+        if one is None or many is None:
+            continue
+        res.nt((name, "split_frames_composite", dev))
+        res.count("split_frame_runs")
+        # (unanticipated shocks after period 1 are surprises: the equations of earlier periods hold in expectation
+        # only, so this input is judged differentially; (c) ties the single-frame run to restarts)
+        for n_ in one.names():
+            if n_[0] in "vo" and not np.allclose(many.arr[n_], one.arr[n_], rtol=1e-8, atol=1e-9, equal_nan=True):
+                bad("split_frames", "composite input dev=%s: %s differs between split-frame and single-frame simulation by %.3e"
+                    % (dev, n_, np.nanmax(np.abs(many.arr[n_] - one.arr[n_]))), input=[list(x) for x in comp2], mode=dev, input_kind="split_frames")
+                break
 
     # (d) non-explosive: composite input over a long horizon, deviation mode
     comp = tuple(S)
@@ -464,7 +493,8 @@ def run(ctx, total, info):
     info["floors"] = {"models": (len(fam), 300), "determinate": (c.get("oracle_determinate", 0), 150),
                       "indeterminate": (c.get("oracle_indeterminate", 0), 15), "no_stable": (c.get("oracle_no_stable", 0), 30),
                       "distinct_cases": (len(total.nontrivial), 8000),
-                      "unit_root_models": (c.get("models_with_unit_roots", 0), 5), "variant_runs": (c.get("variant_runs", 0), 300)}
+                      "unit_root_models": (c.get("models_with_unit_roots", 0), 5), "variant_runs": (c.get("variant_runs", 0), 300),
+                      "split_frame_runs": (c.get("split_frame_runs", 0), 500)}
 
 
 def replay(case):
